@@ -76,4 +76,15 @@ CLAIMED = {
   "text": "Marker constants equal the specification; all 256 marker bytes are enumerated (supported -> a value of that very marker, others -> error); every supported type's bytes equal the AMF0 layout in both directions. The strict array's keyed layout is a recorded known finding (tests pin it).",
   "note": "Layout tables transcribed from amf0_spec_121207; an independent codec is not executed.",
  },
+
+ "C01": {
+  "technique": "bit-provenance abstract interpretation of the chunk header writers/parsers and of the per-chunk payload reader over symbolic lengths, min-idiom/dominator rules on the write loop, sibling agreement reader<->writer on chunk-size application, nil-result dataflow, who-may-call on the transport",
+  "text": "Sound static decision of the per-chunk ingredients of C01 for all field values and lengths at once: header layouts both ways, min(remaining, chunk size) on both sides with the right (input/output) setting, announced chunk sizes applied on both ends in the right order, flush before success, all-or-error reads, no dereference of an unfinished message, type-0 then type-3 headers. Byte equality over whole sessions is not decided (loop arithmetic over runtime lengths).",
+  "note": "Trusts bufio/io/binary models and my transcription of RTMP 5.3.1.",
+ },
+ "C02": {
+  "technique": "bit-provenance abstract interpretation of readBasicHeader/readMessageHeader over symbolic chunk-stream state (one variant per header type x freshness x extended timestamp), field-assignment rule over SSA",
+  "text": "For all field values at once: the three basic-header forms, per-type field inheritance with 31-bit timestamps, extended timestamp consumption, and the three rejection rules (decided before any further read) match RTMP 5.3.1; every parser-state field that is tested is assigned. The absolute-vs-delta extended timestamp on type-1/2 headers is a recorded known finding. Interleavings and long traces are not enumerated.",
+  "note": "Trusts io/binary models and my transcription of RTMP 5.3.1.",
+ },
 }
